@@ -50,6 +50,9 @@ PROBES = {
     "mapattr_default": "{{ objs|map(attribute='attr', default='d')|join }}", "groupby_default": "{{ objs|groupby('attr', default='d')|length }}",
     "selectattr": "{{ objs|selectattr('attr')|list|length }}", "sortattr": "{{ objs|sort(attribute='attr')|length }}", "sumattr": "{{ objs|sum(attribute='num') }}",
     "dot_item": "{{ obj.k }}", "dot_missing": "{{ obj.zz|default('d') }}", "sub_attr": "{{ obj['attr'] }}",
+    "dyn_call": "{{ dyn(@) }}", "dyn_for": "{% for x in dyn %}[{{ x }}]{% endfor %}", "dyn_attr": "{{ dyn.dval }}|{{ dyn.nope|default('d') }}",
+    "dyn_str": "{{ dyn }}", "dyn_list": "{{ dyn|list|length }}", "dyn_join": "{{ dyn|join(',') }}", "dyn_item": "{{ dyn['dval'] }}",
+    "dyn_map": "{{ dyn|map('string')|join }}", "dyn_test": "{{ dyn is iterable }}{{ dyn is callable }}",
     "str_filter": "{{ obj|string|upper }}", "trim": "{{ obj|trim }}", "format": "{{ '%s'|format(obj) }}", "tilde": "{{ obj ~ fn(@) }}",
 }
 PROBE_KINDS = sorted(PROBES)
@@ -162,10 +165,36 @@ def make_data(ev, is_async):
         ev.hit("fn")
         return "f%s" % x
 
+    class Dyn:
+        """Resolves unknown attributes dynamically (a lazy proxy): every such lookup - also the engine's own
+        probes (__aiter__, __html__, unsafe_callable, alters_data, ...) - is an attribute-access event."""
+
+        def __init__(self, items):
+            self.items = items
+
+        def __getattr__(self, name):
+            ev.hit("dynattr")
+            if name == "dval":
+                return "DV"
+            raise AttributeError(name)
+
+        def __call__(self, x=0):
+            ev.hit("fn")
+            return "c%s" % x
+
+        def __iter__(self):
+            ev.hit("__iter__")
+            return Iter(self.items)
+
+        def __str__(self):
+            ev.hit("__str__")
+            return "DY"
+
     from markupsafe import Markup
 
     # "mk" is plain data (no events): joining it consults the runtime autoescape setting
-    data = {"fn": fn, "obj": Obj(0), "it": It([3, 1, 2, 1]), "objs": [Obj(1), Obj(2)], "mk": [Markup("<i>"), "b"]}
+    data = {"fn": fn, "obj": Obj(0), "it": It([3, 1, 2, 1]), "objs": [Obj(1), Obj(2)], "mk": [Markup("<i>"), "b"],
+            "dyn": Dyn([5, 6])}
     return data
 
 
@@ -215,7 +244,7 @@ def cases(draw, depth=2):
     is_async = draw(st.booleans())
     entry = draw(st.sampled_from(ENTRIES_ASYNC if is_async else ENTRIES_SYNC))
     return {"tpls": tpls, "ext": ext, "async": is_async, "entry": entry, "exc": draw(st.sampled_from(EXC_KINDS)),
-            "k": draw(st.integers(1, 10**6)), "autoescape": draw(st.booleans())}
+            "k": draw(st.integers(1, 10**6)), "autoescape": draw(st.booleans()), "sandbox": draw(st.booleans())}
 
 
 # ---------------------------------------------------------------------------------------------
@@ -344,12 +373,14 @@ QUICK_CAP = {"v": None}
 
 def check_case(case, rec=None):
     import jinja2
+    import jinja2.sandbox
 
     srcs, structural = print_set(case)
     exc_cls = EXC_CLS[case["exc"]]
 
     def fresh_env():
-        return jinja2.Environment(loader=jinja2.DictLoader(srcs), enable_async=case["async"], autoescape=case.get("autoescape", False))
+        cls = jinja2.sandbox.SandboxedEnvironment if case.get("sandbox") else jinja2.Environment
+        return cls(loader=jinja2.DictLoader(srcs), enable_async=case["async"], autoescape=case.get("autoescape", False))
 
     # clean runs (twice: event order must be deterministic)
     ev = Events(exc_cls)
@@ -404,6 +435,7 @@ def check_case(case, rec=None):
     labels.update("w_" + s for s in structural)
     labels.add("entry_" + case["entry"])
     labels.add("async" if case["async"] else "sync")
+    labels.add("sandboxed" if case.get("sandbox") else "plain_env")
     labels.add("exc_" + case["exc"])
     if case["ext"]:
         labels.add("extends")
